@@ -185,6 +185,7 @@ esl_sxp_invcdf(double p, double mu, double lambda, double tau)
 
   do {				/* bisection */
     xm = (x1+x2) / 2.;
+    if (xm <= x1 || xm >= x2) break; /* x1,x2 are adjacent doubles: can't do better */
     fm = esl_sxp_cdf(xm, mu, lambda, tau);
     
     if      (fm > p) x2 = xm;
